@@ -868,7 +868,7 @@ func (em *emitter) emitBuiltin(call *ast.Call, reg int8, dstType reflect.Type) {
 				} else {
 					em.fb.enterStack()
 					tmp := em.fb.newRegister(reflect.Interface)
-					em.changeRegister(false, argRegs[i], tmp, argTypes[i], emptyInterfaceType)
+					em.changeRegister(false, argRegs[i], tmp, printType(argTypes[i]), emptyInterfaceType)
 					em.fb.emitPrint(tmp)
 					em.fb.exitStack()
 				}
@@ -879,7 +879,7 @@ func (em *emitter) emitBuiltin(call *ast.Call, reg int8, dstType reflect.Type) {
 			em.fb.enterStack()
 			regs := make([]int8, len(args))
 			for i, argExpr := range args {
-				regs[i] = em.emitExpr(argExpr, emptyInterfaceType)
+				regs[i] = em.emitPrintArg(argExpr)
 			}
 			for _, reg := range regs {
 				em.fb.emitPrint(reg)
@@ -902,7 +902,7 @@ func (em *emitter) emitBuiltin(call *ast.Call, reg int8, dstType reflect.Type) {
 				} else {
 					em.fb.enterStack()
 					tmp := em.fb.newRegister(reflect.Interface)
-					em.changeRegister(false, argRegs[i], tmp, argTypes[i], emptyInterfaceType)
+					em.changeRegister(false, argRegs[i], tmp, printType(argTypes[i]), emptyInterfaceType)
 					em.fb.emitPrint(tmp)
 					em.fb.exitStack()
 				}
@@ -913,7 +913,7 @@ func (em *emitter) emitBuiltin(call *ast.Call, reg int8, dstType reflect.Type) {
 			em.fb.enterStack()
 			regs := make([]int8, len(args))
 			for i, argExpr := range args {
-				regs[i] = em.emitExpr(argExpr, emptyInterfaceType)
+				regs[i] = em.emitPrintArg(argExpr)
 			}
 			for i, reg := range regs {
 				if i > 0 {
@@ -1186,4 +1186,27 @@ func (em *emitter) emitComplexOperation(exprType reflect.Type, expr1 ast.Express
 	em.fb.emitCallNative(index, 0, stackShift, expr1.Pos())
 	em.changeRegister(false, ret, reg, exprType, dstType)
 	em.fb.exitScope()
+}
+
+// printType returns the type with which a value of type typ must be passed to
+// the print and println builtins. As gc does, a value of a defined type is
+// printed as a value of its underlying type.
+func printType(typ reflect.Type) reflect.Type {
+	if st, ok := typ.(runtime.ScriggoType); ok && typ.Kind() != reflect.Interface {
+		return st.GoType()
+	}
+	return typ
+}
+
+// emitPrintArg emits the argument arg of a print or println call and returns
+// the register, with interface type, in which it has been stored.
+func (em *emitter) emitPrintArg(arg ast.Expression) int8 {
+	typ := em.typ(arg)
+	if typ == nil || printType(typ) == typ {
+		return em.emitExpr(arg, emptyInterfaceType)
+	}
+	tmp := em.emitExpr(arg, typ)
+	reg := em.fb.newRegister(reflect.Interface)
+	em.changeRegister(false, tmp, reg, printType(typ), emptyInterfaceType)
+	return reg
 }
